@@ -170,12 +170,14 @@ prop('C15',
      [('R00.dyn', RG.rule_no_dynamic), ('R15.f', R15_DENSITY), ('R15.s', R15_DIAMETER),
       ('R15.k', R15_CHECKS), ('R15.w', RDn.rule_who_may_write), ('R13.9', RM.rule_items),
       ('R14.m', R14_SETITEM), ('R14.k', R14_SETUNSET)],
-     'Static analysis of Density/Diameter: the setters are abstractly interpreted on an arbitrary symbolic pre-state '
-     'with a symbolic type label; the inner loop over all types is case-split on (partner is the assigned type / another '
-     'assigned type / unassigned) and in every case the stores must equal the specification (rho_a rho_b, rho_a or '
-     'rho_a+rho_b, sum of assigned densities, (d_a+d_b)/2, pi d^3/6) evaluated with post-state values, keyed by the '
-     'pair through the symmetric setters (R13.9, R14.m); this is an inductive invariant, so it covers every assignment '
-     'order and re-assignment; total is recomputed from zero per key; check() delegation; who-may-write sweep.',
+     'Static analysis of Density/Diameter by abstract execution of the real classes (with the real ValueTable, PairTable and '
+     'MatrixArray underneath) on concrete type lists of 1-4 labels -- strings and integers, boxed so that a label is equal to, '
+     'never identical with, the entry of the type list -- over every bounded assignment history (single keys, list keys in both '
+     'orders, one-shot iterables, re-assignment; one fresh symbol per assignment): density, total, pair and site in both orders, '
+     'diameter, volume, sigma in both orders, the two-key read and check() are compared with the stated formulas as canonical '
+     'terms after each history (pv/rules/density_sem.py).  That is the quantifier of the property.  The older rules (symbolic '
+     'label, case split over the partner type) only confirm when the real classes cannot be executed; who-may-write sweep; the '
+     'symmetric setters of MatrixArray and PairTable (R13.9, R14.m); call interface (R00.sig).',
      'floating-point rounding of the products/sums.', trusted=('A1', 'A4', 'A5'))
 
 
@@ -189,7 +191,8 @@ prop('C12',
      'slicing or re-ordering); the constructor must store fresh copies (np.array, not np.asarray/assignment) and '
      'calculate must write nothing; the same facts are required for a second evaluation on another grid (a cached table '
      'must not skip the guards); PairTable.exportToMatrixArray is executed abstractly on equal / unequal / unset tables; '
-     'PRISM.__init__ must route the evaluated omega table through that guard (R12.w).',
+     'PRISM.__init__ must route the evaluated omega table through that guard (R12.w); omega and k passed as list / tuple; '
+     'loadtxt options that drop rows before the guards; a table of single numbers (0-d arrays) must be refused by the export.',
      'np.loadtxt / np.allclose behaviour (trusted); asserts under python -O (A3); rejection of a wrong-length one-column '
      'file in a rank-1 system happens in numpy shape checking, not in pyPRISM code.', trusted=('A1', 'A2', 'A3'))
 
@@ -226,10 +229,13 @@ prop('C06',
 
 
 prop('C16',
-     [('R00.dyn', RG.rule_no_dynamic), ('R16.x', _fb(RSS.rule_system_check, RP2.rule_system_check)), ('R16.d', RP2.rule_check_dominates),
+     [('R00.dyn', RG.rule_no_dynamic), ('R16.x', _fb(RSS.rule_system_check, RP2.rule_system_check)), ('R16.i', RSS.rule_system_iterpairs), ('R16.d', RP2.rule_check_dominates),
       ('R16.c', RP2.rule_copy_and_frame), ('R16.w', RP2.rule_wiring), ('R14.c', R14_SETITEM),
       ('R14.k', R14_SETUNSET), ('R07.i', RD.rule_mutators)],
-     'Static analysis of System/PRISM construction: System.__init__ is interpreted to enumerate the tables it creates and '
+     'Static analysis of System/PRISM construction: System.check is decided by executing the real System (real tables, Domain, '
+     'MatrixArrays) over concrete labels: the complete system passes without a write, each single omission (domain, a density, '
+     'a diameter, a potential / closure / omega pair) is refused with ValueError, for string and integer labels; formerly: '
+     'System.__init__ is interpreted to enumerate the tables it creates and '
      'System.check must visit each of them (and refuse a missing domain with ValueError) without writing; in '
      'createPRISM/solve an unconditional self.check() must dominate PRISM(self); PRISM.__init__ is abstractly interpreted '
      'on a symbolic, fully specified System with per-pair element objects: every effect on anything reachable from the '
@@ -244,7 +250,7 @@ prop('C16',
 
 
 prop('C01',
-     [('R00.dyn', RG.rule_no_dynamic), ('R01.a', RP2.rule_cost), ('R01.f', RP2.rule_post_solve),
+     [('R00.dyn', RG.rule_no_dynamic), ('R01.a', RP2.rule_cost), ('R01.f', RP2.rule_post_solve), ('R01.s', RP2.rule_solver_arguments),
       ('R16.w', RP2.rule_wiring), ('R16.c', RP2.rule_copy_and_frame),
       ('R09.d', RC.rule_definition), ('R03.a', RC.rule_core), ('R09.p', RC.rule_purity), ('R09.h', RC.rule_history_values),
       ('R14.c', R14_SETITEM),
@@ -283,7 +289,7 @@ prop('C11',
      'with new contents, returned array edited) must give the value of a fresh model, and no branch of calculate may '
      'depend on a reduction over the whole k array (R11.h, R11.e).',
      'finiteness at the small k of a real grid (catastrophic cancellation in (1-E)^2 is a floating-point fact), NFJC '
-     'quadrature accuracy and its nan when k hits an x node, the Koyama moment formulas r2/r4 (no reference offline).',
+     'quadrature accuracy and its nan when k hits an x node, <r^4> of the Koyama chain for n >= 3 (no elementary identity; n = 1, 2 and the whole <r^2> series are checked).',
      ['|E| <= 1 for E=exp(-x^2) and E=sin(x)/x; the bounds omega<=N, omega->N, omega->1 follow from the certified sum form'])
 
 
